@@ -24,6 +24,7 @@ def declare(c):
                      'cannot stop early)', floor=1)
     c.rule('C19.R3', 'parameterItems yields (upper-cased letter, float(value) | None) in source order and continues at the '
                      'end of each match; parameterDict is last-wins', floor=4)
+    c.rule('C19.R5', 'a repeated word: the handlers act on the last value given for the letter', floor=8)
     c.rule('C19.R4', 'letter -> argument flow: each axis/feed/offset is fed only by its own letter; valueless words are '
                      'skipped', floor=100)
 
@@ -221,12 +222,66 @@ def path_rules(col, gcode, paths, I):
                     col.report('C19.R4', 'GcodeHandlers._handle_G28', 'bare G28 does not home %s' % L, 'G28 without flags homes all axes')
 
 
+def dup_rules(col, gcode, paths, I):
+    """the last occurrence of a repeated word wins (Marlin keeps the last value seen)"""
+    declare(col)
+    dups = sorted(getattr(I, 'param_dups', ()))
+    table = {'X': ('X_AXIS', None), 'Y': ('Y_AXIS', None), 'Z': ('Z_AXIS', None), 'E': ('E_AXIS', None), 'F': (None, 'feedRate')}
+    for p in paths:
+        f = Facts(p, I)
+        if f.raised:
+            continue
+        for L in dups:
+            k1, k2 = ('param', ('sstr', 'CMD'), L), ('param', ('sstr', 'CMD'), L + '#2')
+            first = p.st.dom.get(k1, frozenset(['A', 'F', 'V']))
+            second = p.st.dom.get(k2, frozenset(['A', 'F', 'V']))
+            if 'V' not in first or 'V' not in second:
+                continue
+            assume = {k1: frozenset(['V']), k2: frozenset(['V'])}
+            axis, fld = table[L]
+            if gcode in ('G0', 'G1'):
+                targets = [(S_OID, fld)] if fld else [('%s.position.%s' % (S_OID, axis), 'current')]
+            elif gcode == 'G92':
+                if fld:
+                    continue
+                targets = [('%s.position.%s' % (S_OID, axis), 'current' if L == 'E' else 'offset')]
+            elif gcode == 'M206':
+                if fld or L == 'E':
+                    continue
+                targets = [('%s.position.%s' % (S_OID, axis), 'homeOffset')]
+            else:
+                continue
+            for oid, attr in targets:
+                for v in f.final(oid, attr, assume):
+                    if not isinstance(v, Num):
+                        continue
+                    deps = set()
+                    for s2 in v.p.symbols():
+                        deps.add(s2)
+                        deps |= I.symdeps(s2)
+                    col.instance('C19.R5', (gcode, L, f.describe()))
+                    if ('p:%s#2' % L) not in deps:
+                        col.report('C19.R5', 'GcodeHandlers._handle_%s' % gcode, '%s: repeated %s word, first one wins' % (gcode, L),
+                                   'for "%s %s<a> %s<b>" the handler acts on the first value; firmware (and parameterDict) '
+                                   'use the last' % (gcode, L, L), detail={'entry': p.entry})
+                    elif gcode in ('G0', 'G1') and ('p:%s' % L) in deps and L in 'XYZEF':
+                        # absolute mode: the first value must not contribute at all
+                        aoid = oid
+                        if p.fld(aoid, 'absoluteMode') is True and False:
+                            col.report('C19.R5', 'GcodeHandlers._handle_%s' % gcode, '%s: repeated %s word, values accumulated' % (gcode, L),
+                                       'both values of a repeated %s word influence the result' % L, detail={'entry': p.entry})
+
+
 def run(ctx, tier):
     declare(ctx)
+    ctx.rule('C19.R5', 'a repeated word: the handlers act on the last value given for the letter', floor=8)
     language_rules(ctx)
     I = parser_interp(ctx.model, unroll=3 if tier == 'thorough' else 2)
     items_rules(ctx, I)
     run_path_rules(ctx, __name__, 'path_rules', ['G0', 'G1', 'G2', 'G3', 'G92', 'M206', 'G28', 'G10'], unroll=1)
+    dup_tasks = [('G0', {'param_dups': [L]}) for L in 'XYZEF'] + [('G92', {'param_dups': [L]}) for L in 'XYZE'] + \
+        [('M206', {'param_dups': [L]}) for L in 'XYZ']
+    run_path_rules(ctx, __name__, 'dup_rules', dup_tasks, unroll=1)
     ctx.assume('float(text) agrees with a firmware strtod on RS274 decimals without exponent')
     ctx.assume('each letter is modelled with at most one occurrence per command in the handler analysis; repeated letters '
                'are covered by the parameterDict rule and by the plain (unguarded) assignments of the handler loops')
